@@ -29,6 +29,7 @@ from ..core import (
     walk_no_nested,
 )
 from ..lib import (
+    NORMAL,
     admission_effects,
     all_calls,
     call_matches,
@@ -451,6 +452,83 @@ def rule_config(program, ctx, prop=P, rid="C14.config"):
                                "(bracket, quote, comma, blank become roles), so a role string containing one of them is authorised"))
 
 
+def rule_validator_object(program, ctx, prop=P, rid="C14.validator"):
+    ctx.rule(
+        rid,
+        "the output validator is evaluated for *every* delivery with that delivery's context: BaseStorage.setup binds self.check_output to the configured callable itself "
+        "(object_from_path(name)); if it is wrapped, every path through the wrapper calls the configured function with (event, context) - a memo keyed by the event id "
+        "replays the verdict given to one connection (a privileged one) to all others",
+        floor=1,
+    )
+    fn = program.func("nostr_relay.storage.base:BaseStorage.setup")
+    binds = [s for s in walk_no_nested(fn) if isinstance(s, ast.Assign) and any(dotted(t) == "self.check_output" for t in s.targets)]
+    if not binds:
+        ctx.bad(finding_func(prop, rid, fn, "setup no longer binds self.check_output", text="def setup(...) :: check_output"))
+        return
+    def leaves(e):
+        if isinstance(e, ast.IfExp):
+            return leaves(e.body) + leaves(e.orelse)
+        if isinstance(e, ast.BoolOp):
+            return [x for v_ in e.values for x in leaves(v_)]
+        return [e]
+
+    from ..lib import expand_aliases
+    for b in binds:
+        v = b.value
+        lv = [x for x in leaves(v) if not (isinstance(x, ast.Constant) and x.value is None) and not (isinstance(x, ast.Name) and x.id == "output_validator")]
+        if not lv:
+            continue
+        if all(isinstance(x, ast.Call) and call_name(x) in ("object_from_path", "call_from_path") for x in lv):
+            ctx.ok(rid, b, "check_output = the configured callable itself")
+            continue
+        v = expand_aliases(fn, lv[0]) if len(lv) == 1 else v
+        # a wrapper defined in the package (possibly inlined into setup as a nested function)
+        target = None
+        if isinstance(v, ast.Name):
+            target = next((d for d in ast.walk(fn) if isinstance(d, (ast.FunctionDef, ast.AsyncFunctionDef)) and d.name == v.id), None)
+        if target is None:
+            ctx.bad(finding_at(prop, rid, b, f"self.check_output is `{ast.unparse(v)[:60]}`, not the configured validator: it cannot be shown that the validator is consulted for every delivery"))
+            continue
+        cfgw = cfg_of(target)
+        calls = cfgw.stmt_nodes(lambda st: any(isinstance(c.func, ast.Name) and len(c.args) >= 2 and dotted(c.args[0]) == target.args.args[0].arg for c in own_calls(st)), kinds=("stmt", "test"))
+        rets = cfgw.stmt_nodes(lambda st: isinstance(st, ast.Return), kinds=("stmt",))
+        passes = {n: set(NORMAL) for n in calls}
+        path = must_pass(cfgw, passes, rets or [cfgw.exit], kinds=NORMAL)
+        if path or not calls:
+            ctx.bad(finding_at(prop, rid, target, f"the output validator is wrapped by `{target.name}`, which can answer without calling it (a remembered verdict): the decision taken for "
+                               "one connection's context is replayed for another connection"))
+        else:
+            ctx.ok(rid, target, "wrapper calls the configured validator on every path")
+
+
+def rule_rolesets(program, ctx, prop=P, rid="C14.rolesets"):
+    ctx.rule(
+        rid,
+        "role sets are values, not accumulators: nothing updates a token's / the authenticator's role set in place (`token['roles'] |= …`, `.update`, `.add`) - for a pubkey "
+        "without a row get_auth_roles hands out the Authenticator's shared default_roles object, so an in-place union writes a privileged role into the anonymous role set "
+        "of the whole process",
+        floor=1,
+    )
+    n = 0
+    for m in program.modules.values():
+        if m.rel.startswith("<dep>"):
+            continue
+        for x in ast.walk(m.tree):
+            tgt = None
+            if isinstance(x, ast.AugAssign) and isinstance(x.op, (ast.BitOr, ast.BitAnd, ast.Sub, ast.BitXor)):
+                tgt = x.target
+            elif isinstance(x, ast.Call) and isinstance(x.func, ast.Attribute) and x.func.attr in ("update", "add", "discard", "remove", "clear", "intersection_update", "difference_update"):
+                tgt = x.func.value
+            if tgt is None:
+                continue
+            txt = ast.unparse(tgt)
+            if "roles" in txt and ("[" in txt or "default_roles" in txt or ".roles" in txt):
+                n += 1
+                ctx.bad(finding_at(prop, rid, x, f"`{norm(x, 70)}` changes a role set in place: if it is the shared default_roles object every unauthenticated connection gains the role"))
+    au = program.func("nostr_relay.auth:Authenticator.authenticate")
+    ctx.ok(rid, au, "no in-place update of a role set in the package") if not n else None
+
+
 def run(program, ctx):
     from ..lib import rule_awaited
 
@@ -461,6 +539,11 @@ def run(program, ctx):
     rule_output(program, ctx)
     rule_can_do(program, ctx)
     rule_config(program, ctx)
+    rule_validator_object(program, ctx)
+    rule_rolesets(program, ctx)
+    from . import c15
+
+    c15.rule_token(program, ctx, prop=P, rid="C14.token")
     ctx.not_decided += [
         "role read-back equals last write (SQL engine semantics / service-event replacement)",
         "the full action->roles configuration matrix as behaviour",
